@@ -79,6 +79,16 @@ func checkC13(r *report.Report, tier string, seed int64) error {
 		jobs = append(jobs, job{&gen.Case{Seed: seed, Index: 100000 + k, Files: tool.Files{"pk/setup.go": cases.Fixed[name]}, SetupPath: "pk/setup.go",
 			Features: map[string]int{"single-file-package": 1}, Struct: map[string][]gen.FieldDecl{}}})
 	}
+	// a qualifier that is the NAME of imported packages but the last path element of none: the import table
+	// (built from path elements) has no entry for it; three packages of that name are imported by the package's files
+	jobs = append(jobs, job{&gen.Case{Seed: seed, Index: 100010, SetupPath: "pk/setup.go", Features: map[string]int{"package-name-differs-from-import-path": 1}, Struct: map[string][]gen.FieldDecl{},
+		Files: tool.Files{
+			"pk/setup.go": "//go:build convergen\n\npackage pk\n\nimport \"cvcase/lab1\"\n\nvar _ = labels.Of\n\ntype S struct {\n\tCode  int\n\tLabel string\n}\n\ntype D struct {\n\tCode  int\n\tLabel string\n}\n\ntype Convergen interface {\n\t// :conv labels.Of Code Label\n\tToD(*S) *D\n}\n",
+			"pk/other.go": "package pk\n\nimport (\n\tlegacy \"cvcase/lab2\"\n\ti18n \"cvcase/lab3\"\n)\n\nvar _ = legacy.Of\nvar _ = i18n.Of\n",
+			"lab1/l.go":   "package labels\n\nimport \"strconv\"\n\nfunc Of(i int) string { return \"l1:\" + strconv.Itoa(i) }\n",
+			"lab2/l.go":   "package labels\n\nimport \"strconv\"\n\nfunc Of(i int) (string, error) { return \"l2:\" + strconv.Itoa(i), nil }\n",
+			"lab3/l.go":   "package labels\n\nfunc Of(s string) string { return \"l3:\" + s }\n",
+		}}})
 	var mu sync.Mutex
 	var wg sync.WaitGroup
 	sem := make(chan struct{}, 8)
